@@ -1,7 +1,7 @@
 (* Props/C07.v — the store can reopen what it wrote *)
 From Coq Require Import List NArith Arith Bool.
 From SKV Require Import Base.Lex Txn.WriteSet Spec.Store.
-From SKV Require Import Crash.Proto Crash.ProtoSpec Crash.ProtoRefute Crash.Proto_proofs.
+From SKV Require Import Crash.Proto Crash.ProtoSpec Crash.ProtoRefute Crash.Proto_proofs Crash.ProtoRecovery_proofs.
 Import ListNotations.
 
 (* recovery as a specification: the state after the first n commits; states of longer prefixes
@@ -25,12 +25,24 @@ Theorem C07_generations_compose : generations_compose_stmt.
 Proof. exact generations_compose. Qed.
 
 (* recovery's flush of a piece of a replayed segment is accepted after a power loss (everything that
-   is left is on disk); after a process crash it is not: C03_recovery_piece_unsynced_refuted *)
+   is left is on disk); before c9fa42b the recovery after a process crash was not: C03_recovery_piece_unsynced_old_recovery_refuted *)
 Theorem C07_power_loss_on_disk : power_loss_on_disk_stmt.
 Proof. exact power_loss_on_disk. Qed.
 
 Theorem C07_piece_flush_accepted : piece_flush_accepted_stmt.
 Proof. exact piece_flush_accepted. Qed.
+
+(* the whole recovery of the repaired code (writer open, fsync of the replayed segments, flush of every
+   piece but the last) is accepted after either crash and for every split; the store opens after a
+   crash at any point inside it, with the same batches after a process crash *)
+Theorem C07_recovery_pieces_accepted : recovery_pieces_accepted_stmt.
+Proof. exact recovery_pieces_accepted. Qed.
+
+Theorem C07_generations_compose_pieces : generations_compose_pieces_stmt.
+Proof. exact generations_compose_pieces. Qed.
+
+Theorem C07_crash_in_recovery_safe : crash_in_recovery_safe_stmt.
+Proof. exact crash_in_recovery_safe. Qed.
 
 (* what the obligations exclude: a table of the manifest that is not on disk / was unlinked, an
    append after a torn tail *)
